@@ -366,6 +366,12 @@ static int check_file(const char *filename, int algorithm)
         }
     }
 
+    /* A read error on the checksum file is not the same as reaching its end */
+    if (ferror(file)) {
+        perror(filename);
+        ok = 0;
+    }
+
     /* Report overall results */
     if (!found) {
         fprintf(stderr, "%s: no properly formatted checksum lines found\n",
